@@ -79,6 +79,9 @@ func request(id int, size int) *stun.Message {
 
 // response builds a success response for id carrying a unique payload.
 func response(id int, serial int, size int) []byte {
+	if size == 20 {
+		return ref.Encode(1, 2, txID(id), nil) // header-only response
+	}
 	payload := []byte(fmt.Sprintf("resp-%d-%d", id, serial))
 	attrs := []ref.EAttr{{Type: 0x7F02, Value: payload}}
 	if extra := size - 20 - 4 - ref.Pad(len(payload)) - 4; extra > 0 {
